@@ -236,7 +236,6 @@ svars == <<sch, span, cur, hist, hdone, lprev, live, ldone>>
 dvars == <<declared, sources, issued, refused>>
 vars  == <<mode, qvars, svars, dvars>>
 
-UserConds == {None} \cup { Parse(Show(t)) : t \in Trees(MaxDepth) }
 
 Init ==
     /\ mode = "idle"
@@ -300,8 +299,20 @@ StartBatch(decl, srcs) ==
                               ELSE issued' = {} /\ refused' = TRUE
     /\ UNCHANGED <<qvars, svars>>
 
+(* The user's WHERE clause is text: every tree of Trees(MaxDepth) is printed and  *)
+(* what the parser makes of that text is the user's condition.  The top level is *)
+(* enumerated with nested quantifiers so that TLC never has to build (and sort)  *)
+(* the whole set Trees(MaxDepth).                                                  *)
+UserText(t) == Parse(Show(t))
+SomeNewQuery ==
+    \/ NewQuery(None)
+    \/ \E a \in Atoms : NewQuery(a)
+    \/ /\ MaxDepth > 0
+       /\ LET S == Trees(MaxDepth - 1)
+          IN  \/ \E a \in S, b \in S : NewQuery(UserText(And(a, b))) \/ NewQuery(UserText(Or(a, b)))
+              \/ \E a \in S : NewQuery(UserText(Par(a)))
 Next ==
-    \/ \E u \in UserConds : NewQuery(u)
+    \/ SomeNewQuery
     \/ nops < MaxOps /\ \E T \in TimeChoices, w \in {"q", "c"} : SetTimes(w, T[1], T[2])
     \/ nops < MaxOps /\ DoClone
     \/ \E s \in Schedules : \E p \in 0..((IF s.kind = "cron" THEN s.p ELSE s.every) - 1), n \in SpanLens :
